@@ -222,33 +222,67 @@ let judge id (c : cursor) (r : cursor) : bool * string =
     (b < List.length mk0, Printf.sprintf "prune.d%d%s" d (if !ill then ".ill" else ""))
   | "saw" | "lpi" ->
     let site = if kind = "saw" then "sawtoothInterpolation" else "LPInterpolation" in
-    check_abnormal r (kind);
     let s_ = next_int c in let a_ = next_int c in
     let ubq = List.init s_ (fun _ -> List.init a_ (fun _ -> next_q c)) in
     let (pts, _) = read_vecs c in
     let vals = next_qs c in
     let query = read_vec c s_ in
     let n = List.length pts in
+    let cv = cornerVals ubq in
+    let pc = dot query cv in
+    let ((_, min_cf), _) = st_scan query cv pts vals O ((O, q_zero), q_zero) in
+    let v_saw = q_add pc min_cf in
+    let no_point = q_eq min_cf q_zero in
+    let compat = List.map nat_i (compatiblePoints query pts) in
+    let k = List.length compat in
+    (* abnormal termination: the known sawtooth defect reads ubV.first[minI] only when no stored point is usable *)
+    if not (at_end r) then begin
+      match peek r with
+      | "CRASH" | "TIMEOUT" | "SANITIZER" ->
+        oracle_fail (if kind = "saw" && no_point then "no_UB" else "no_UB_other") kind ("abnormal termination: " ^ String.concat " " (rest r))
+      | "THROW" -> oracle_fail "no_throw" site ("unexpected exception: " ^ String.concat " " (rest r))
+      | _ -> ()
+    end;
     let toks = finite_tokens r in
     (match toks with
      | [] -> oracle_fail "interp_finite" site "no output"
      | _ -> ());
     let nonfinite = List.exists (function Fin _ -> false | _ -> true) toks in
-    if nonfinite then oracle_fail (if kind = "lpi" then "interp_finite" else "interp_weights_ok") site "non-finite value or weight";
+    if nonfinite then begin
+      let comp_has_zero = k = 1 && List.exists (fun x -> q_eq x q_zero) (List.nth pts (List.hd compat)) in
+      if kind = "lpi" then oracle_fail (if comp_has_zero then "interp_shortcut_div0" else "interp_finite") site "non-finite value or weight"
+      else oracle_fail (if no_point then "interp_weights_uninit" else "interp_finite") site "non-finite value or weight"
+    end;
     let nums = List.map (function Fin x -> x | _ -> q_zero) toks in
     let value = List.hd nums in
     let w = drop 2 nums in
-    let cv = cornerVals ubq in
-    let pc = dot query cv in
     let maxv = List.fold_left (fun m x -> q_max m (q_abs x)) q_one (cv @ vals) in
     let tolw = if kind = "saw" then q_of_ints 1 1000000000 else q_mul (q_of_ints 1 100000) (q_of_int (1 + n)) in
     let tolv = q_mul (q_mul tolw maxv) (q_of_int (1 + n + s_)) in
+    let close_vec a b = List.length a = List.length b && List.for_all2 (fun x y -> q_close ~atol:(q_of_ints 1 100000) x y) a b in
+    (* classify a weight failure: the two known placement defects have an exact signature *)
+    let weight_clause () =
+      if kind = "saw" then begin
+        let (_, ow) = sawtoothInterpolation_orig query ubq pts vals in
+        if no_point then "interp_weights_uninit"
+        else if close_vec ow w then "interp_weights_placement"
+        else "interp_weights_ok"
+      end else begin
+        (* weights of the compatible points sitting in the last k slots instead of at S + compat_i *)
+        if k >= 1 && List.length w = s_ + n then begin
+          let tail = drop (s_ + n - k) w in
+          let moved = take s_ w @ List.init n (fun i ->
+              let rec find cs ts = match cs, ts with
+                | ci :: cs', t :: ts' -> if ci = i then t else find cs' ts'
+                | _, _ -> q_zero in find compat tail) in
+          if weights_ok_tolb tolw query pts moved && value_le_weightedb tolv value moved cv vals then "interp_weights_placement"
+          else "interp_weights_ok"
+        end else "interp_weights_ok"
+      end in
     if not (weights_ok_tolb tolw query pts w) then
-      oracle_fail "interp_weights_ok" site ("weights " ^ str_vec w ^ " are not non-negative weights over corners++points reconstructing the query");
+      oracle_fail (weight_clause ()) site ("weights " ^ str_vec w ^ " are not non-negative weights over corners++points reconstructing the query");
     if not (value_le_weightedb tolv value w cv vals) then
       oracle_fail "interp_value_le_weighted" site ("value " ^ string_of_q value ^ " exceeds the weighted sum " ^ string_of_q (weighted_value w cv vals));
-    let ((_, min_cf), _) = st_scan query cv pts vals O ((O, q_zero), q_zero) in
-    let v_saw = q_add pc min_cf in
     if kind = "saw" then begin
       if not (q_le value (q_add pc tolv)) then oracle_fail "sawtooth_between" site "value above the corner-only bound";
       let bv = basicV query ubq in
@@ -266,12 +300,10 @@ let judge id (c : cursor) (r : cursor) : bool * string =
       let clear = clear && (q_eq bv v_saw || q_lt (q_of_ints 1 100000000) (q_abs (q_sub bv v_saw))) in
       if clear then begin
         if List.length mw <> List.length w || not (List.for_all2 (fun x y -> q_close x y) mw w) then
-          disagree "interp_weights_ok" site ("weights impl " ^ str_vec w ^ " model " ^ str_vec mw)
+          disagree (weight_clause ()) site ("weights impl " ^ str_vec w ^ " model " ^ str_vec mw)
       end;
       (q_lt min_cf q_zero && q_le v_saw bv, if q_lt min_cf q_zero then (if q_le v_saw bv then "saw.point" else "saw.basic") else "saw.nopoint")
     end else begin
-      let compat = List.map nat_i (compatiblePoints query pts) in
-      let k = List.length compat in
       (* the LP can do at least as well as any single stored point and as the corners alone *)
       if k >= 2 && not (q_le value (q_add v_saw tolv)) then
         oracle_fail "interp_lp_opt" site ("value " ^ string_of_q value ^ " is above the single-point bound " ^ string_of_q v_saw);
@@ -283,7 +315,7 @@ let judge id (c : cursor) (r : cursor) : bool * string =
          let tolc = q_mul (q_of_ints 1 100000) (q_mul maxv (q_of_int (1 + n + s_))) in
          if not (q_close ~atol:tolc mv value) then disagree "lpi_value" site ("value impl " ^ string_of_q value ^ " model " ^ string_of_q mv);
          if List.length mw <> List.length w || not (List.for_all2 (fun x y -> q_close ~atol:(q_of_ints 1 100000) x y) mw w) then
-           disagree "interp_weights_ok" site ("weights impl " ^ str_vec w ^ " model " ^ str_vec mw));
+           disagree (weight_clause ()) site ("weights impl " ^ str_vec w ^ " model " ^ str_vec mw));
       (k >= 1 && k < n || k >= 2, Printf.sprintf "lpi.k%s" (if k = 0 then "0" else if k = 1 then "1" else "n"))
     end
   | k -> failwith ("unknown case kind " ^ k)
